@@ -499,6 +499,173 @@ def layout_sweep(ctx):
                     layout_case(ctx, U, n, layout, derive)
 
 
+# ----------------------------------------------------------------------------- composites over EVERY target class
+# A composite's network is made from what its targets REPORT.  For most classes the target's own network and its matrix say the
+# same, so a composite may use either - but not for all (PrepareGate's network is the rank-one map, the documented exception;
+# two-qubit rotations wrap a 4x4 matrix; BlockEncodingGate has no network at all).  So controlled / multiplexed / nested gates
+# are built over every gate class of qib.operator, and their network is compared with the matrix computed here from the
+# matrices the LEAVES report (bitwise control pattern, block diagonal), and with their own as_matrix().
+def cleaf_gate(d):
+    import qib
+    t = d["t"]
+    one = {"Identity": qib.IdentityGate, "PauliX": qib.PauliXGate, "PauliY": qib.PauliYGate, "PauliZ": qib.PauliZGate,
+           "Hadamard": qib.HadamardGate, "Sx": qib.operator.SxGate, "S": qib.operator.SGate, "Sadj": qib.operator.SAdjGate,
+           "T": qib.operator.TGate, "Tadj": qib.operator.TAdjGate}
+    if t in one:
+        return one[t](), 1
+    if t in ("Rx", "Ry", "Rz"):
+        return {"Rx": qib.RxGate, "Ry": qib.RyGate, "Rz": qib.RzGate}[t](d["theta"]), 1
+    if t == "Rotation":
+        return qib.RotationGate(list(d["ntheta"])), 1
+    if t in ("Rxx", "Ryy", "Rzz"):
+        q = qubits(2)
+        return {"Rxx": qib.RxxGate, "Ryy": qib.RyyGate, "Rzz": qib.RzzGate}[t](d["theta"], q[0], q[1]), 2
+    if t == "ISwap":
+        q = qubits(2)
+        return qib.ISwapGate(q[0], q[1]), 2
+    if t == "General":
+        return qib.GeneralGate(mat_of(d["mat"]), d["n"]), d["n"]
+    if t == "Prepare":
+        g = qib.PrepareGate(np.array(d["vec"], dtype=float), d["n"], transpose=d["tr"])
+        return (g.inverse() if d.get("inv") else g), d["n"]
+    if t == "PhaseFactor":
+        return qib.PhaseFactorGate(d["phi"], d["n"]), d["n"]
+    if t == "TimeEvolution(FieldOperator)":
+        n = d["n"]
+        fld = qib.field.Field(qib.field.ParticleType.FERMION, qib.lattice.IntegerLattice((n,), pbc=False))
+        term = qib.operator.FieldOperatorTerm([qib.operator.IFODesc(fld, qib.operator.IFOType.FERMI_CREATE),
+                                               qib.operator.IFODesc(fld, qib.operator.IFOType.FERMI_ANNIHIL)], mat_of(d["coeffs"]))
+        return qib.TimeEvolutionGate(qib.FieldOperator([term]), d["time"]), n
+    if t == "TimeEvolution(Heisenberg)":
+        n = d["n"]
+        fld = qib.field.Field(qib.field.ParticleType.QUBIT, qib.lattice.IntegerLattice((n,), pbc=False))
+        return qib.TimeEvolutionGate(qib.operator.HeisenbergHamiltonian(fld, list(d["J"]), list(d["h"])), d["time"]), n
+    if t == "BlockEncoding":
+        P = qib.operator
+        op = P.PauliOperator([P.WeightedPauliString(P.PauliString.from_string(s), w) for s, w in d["terms"]])
+        op.set_field(qib.field.Field(qib.field.ParticleType.QUBIT, qib.lattice.IntegerLattice((d["n"],), pbc=False)))
+        return qib.BlockEncodingGate(op, P.BlockEncodingMethod[d["method"]]), d["n"] + 1
+    raise ValueError(t)
+
+
+def ctree_build(s):
+    """spec -> (gate, wires, reference matrix from the matrices the leaves report)"""
+    import qib
+    if s["t"] == "ctrl":
+        g, w, U = ctree_build(s["g"])
+        cs = [int(b) for b in s["cs"]]
+        nc, d = len(cs), U.shape[0]
+        k = 0
+        for b in cs:
+            k = 2 * k + b                                  # control 0 = most significant bit
+        M = np.identity(d * 2 ** nc, dtype=complex)
+        M[k * d:(k + 1) * d, k * d:(k + 1) * d] = U
+        return qib.ControlledGate(g, nc, cs), nc + w, M
+    if s["t"] == "mux":
+        parts = [ctree_build(x) for x in s["gs"]]
+        d = parts[0][2].shape[0]
+        M = np.zeros((d * len(parts),) * 2, dtype=complex)
+        for k, (_, _, U) in enumerate(parts):
+            M[k * d:(k + 1) * d, k * d:(k + 1) * d] = U
+        return qib.MultiplexedGate([p[0] for p in parts], s["nc"]), s["nc"] + parts[0][1], M
+    g, w = cleaf_gate(s)
+    return g, w, np.asarray(g.as_matrix(), dtype=complex)
+
+
+def ctree_kinds(s):
+    if s["t"] == "ctrl":
+        return "ctrl%s(%s)" % ("".join(str(b) for b in s["cs"]), ctree_kinds(s["g"]))
+    if s["t"] == "mux":
+        return "mux%d[%s]" % (s["nc"], ",".join(ctree_kinds(x) for x in s["gs"]))
+    return s["t"]
+
+
+def composite_leaf_pairs(rng):
+    """(leaf, partner of the same class and width) for every gate class of qib.operator"""
+    th = lambda: round(rng.uniform(-3, 3), 3)
+    r = 1 / np.sqrt(2)
+    pairs = []
+    consts = ["Identity", "PauliX", "PauliY", "PauliZ", "Hadamard", "Sx", "S", "Sadj", "T", "Tadj"]
+    for k, nm in enumerate(consts):
+        pairs.append(({"t": nm}, {"t": consts[(k + 3) % len(consts)]}))
+    for nm in ("Rx", "Ry", "Rz"):
+        pairs.append(({"t": nm, "theta": th()}, {"t": nm, "theta": th()}))
+    pairs.append(({"t": "Rotation", "ntheta": [th(), th(), th()]}, {"t": "Rotation", "ntheta": [th(), th(), th()]}))
+    for nm in ("Rxx", "Ryy", "Rzz"):
+        pairs.append(({"t": nm, "theta": th()}, {"t": nm, "theta": th()}))
+    pairs.append(({"t": "ISwap"}, {"t": "Rzz", "theta": th()}))
+    for n in (1, 2):
+        pairs.append(({"t": "General", "n": n, "mat": mat_desc(monomial(rng, n))}, {"t": "General", "n": n, "mat": mat_desc(signed_perm(rng, n))}))
+    dense1 = np.array([[r, r * 1j], [r * 1j, r]])
+    pairs.append(({"t": "General", "n": 1, "mat": mat_desc(dense1)}, {"t": "General", "n": 1, "mat": mat_desc(dense1.conj().T)}))
+    for n, v, v2 in ((1, [0.25, -0.75], [1.0, 0.0]), (1, [0.0, 1.0], [-0.5, 0.5]), (2, [0.0, 0.5, -0.25, 0.25], [1.0, 2.0, -3.0, 4.0]),
+                     (2, [0.0, 0.0, 0.0, 1.0], [0.25, 0.25, 0.25, 0.25])):
+        for tr in (False, True):
+            pairs.append(({"t": "Prepare", "n": n, "vec": v, "tr": tr}, {"t": "Prepare", "n": n, "vec": v2, "tr": not tr}))
+    pairs.append(({"t": "Prepare", "n": 1, "vec": [round(rng.uniform(-1, 1), 3), round(rng.uniform(0.1, 1), 3)], "tr": False, "inv": True},
+                  {"t": "Prepare", "n": 1, "vec": [0.5, 0.5], "tr": True}))
+    for n in (1, 2):
+        pairs.append(({"t": "PhaseFactor", "n": n, "phi": th()}, {"t": "PhaseFactor", "n": n, "phi": 0.0}))
+    co = np.array([[0.3, 0.2 - 0.5j], [0.2 + 0.5j, -0.7]])
+    pairs.append(({"t": "TimeEvolution(FieldOperator)", "n": 2, "coeffs": mat_desc(co), "time": 0.7},
+                  {"t": "TimeEvolution(FieldOperator)", "n": 2, "coeffs": mat_desc(co.conj()), "time": -0.4}))
+    pairs.append(({"t": "TimeEvolution(Heisenberg)", "n": 2, "J": [0.3, -0.8, 0.5], "h": [0.2, 0.1, -0.4], "time": 0.6},
+                  {"t": "TimeEvolution(Heisenberg)", "n": 2, "J": [1.0, 0.0, 0.0], "h": [0.0, 0.0, 0.5], "time": 1.1}))
+    for m in ("Wx", "Wxi", "R"):
+        pairs.append(({"t": "BlockEncoding", "n": 1, "method": m, "terms": [["X", 0.3], ["Z", -0.4]]},
+                      {"t": "BlockEncoding", "n": 1, "method": m, "terms": [["Y", 0.5]]}))
+    return pairs
+
+
+def composite_specs(rng, thorough):
+    out = []
+    for a, b in composite_leaf_pairs(rng):
+        w = cleaf_gate(a)[1]
+        C = lambda cs, g: {"t": "ctrl", "cs": cs, "g": g}
+        M = lambda nc, gs: {"t": "mux", "nc": nc, "gs": gs}
+        specs = [C([1], a), C([0], a), C([1, 0], a), C([1], C([0], a)), M(1, [a, b]), M(1, [b, a]), C([1], M(1, [a, b])),
+                 M(1, [C([1], a), C([0], b)]), C([0], M(1, [b, a]))]
+        if w == 1:
+            specs += [C([0, 1, 1], a), M(2, [a, b, b, a]), C([1], C([0], C([1], a))), M(1, [M(1, [a, b]), M(1, [b, b])])]
+        elif thorough:
+            specs += [M(2, [a, b, b, a])]
+        out += specs
+    return out
+
+
+def composite_case(ctx, spec):
+    desc = {"kind": "composite", "spec": spec, "shape": ctree_kinds(spec)}
+    try:
+        gate, w, want = ctree_build(spec)
+    except Exception as e:
+        ctx.fail("composite:construction-raises:" + type(e).__name__, desc, "a gate", repr(e))
+        return
+    try:
+        am = np.asarray(gate.as_matrix())
+    except Exception as e:
+        ctx.fail("composite:as_matrix-raises:" + type(e).__name__, desc, "a matrix", repr(e))
+        return
+    if am.shape != want.shape or not np.allclose(am, want, rtol=0, atol=1e-10):
+        ctx.fail("composite:as_matrix-differs-from-the-matrix-built-from-the-leaves", desc, "control pattern / block diagonal of the leaf matrices", "differs")
+    # the network against the gate's own matrix (the property) and against the reference built from the leaves
+    oracle_gate(ctx, "composite", desc, gate, w)
+    oracle_gate(ctx, "composite(reference)", desc, gate, w, expect=want)
+
+
+def composite_sweep(ctx):
+    import inspect
+    import qib.operator as qop
+    pairs = composite_leaf_pairs(ctx.rng)
+    have = {type(cleaf_gate(a)[0]).__name__ for a, _ in pairs}
+    missing = sorted(n for n, c in vars(qop).items() if inspect.isclass(c) and issubclass(c, qop.Gate) and c is not qop.Gate
+                     and not inspect.isabstract(c) and n not in have and n not in ("ControlledGate", "MultiplexedGate"))
+    ctx.oblige("composite-targets:every-gate-class-is-a-target", "correspondence", not missing, "no target spec for: %s" % ", ".join(missing))
+    for spec in composite_specs(ctx.rng, ctx.thorough):
+        ctx.count("composite_over_" + ctree_kinds(spec).split("(")[-1].split("[")[-1].split(",")[0].rstrip(")]"))
+        composite_case(ctx, spec)
+        ctx.nontriv({"kind": "composite", "shape": ctree_kinds(spec), "spec": repr(spec)[:700]})
+
+
 # ----------------------------------------------------------------------------- histories
 def net_snapshot(net):
     return ([(k, t.tid, tuple(t.shape), tuple(t.bids), t.dataref) for k, t in net.net.tensors.items()],
@@ -659,7 +826,14 @@ def run(ctx):
                      "the earlier network object unchanged (unless it aliases the array written in place)")
     layout_sweep(ctx)
     history_sweep(ctx)
-    ctx.log("layouts and histories done")
+    ctx.rules.append("composites over every target class: controlled ([1], [0], [1,0], [0,1,1], nested 2-3 levels), multiplexed (1-2 controls, both "
+                     "orders, nested) and mixed (controlled multiplexer, multiplexer of controlled gates) over EVERY gate class of qib.operator "
+                     "found by introspection (constant and rotation gates, two-qubit rotations, ISwap, General monomial / dense, Prepare on "
+                     "1-2 qubits plain / transposed / inverse / basis states, PhaseFactor, TimeEvolution over a FieldOperator and over a "
+                     "Heisenberg Hamiltonian, BlockEncoding Wx / Wxi / R): network value vs as_matrix() and vs the matrix built here from the "
+                     "matrices the leaves report")
+    composite_sweep(ctx)
+    ctx.log("layouts, histories and composites done")
     sweep(ctx)
 
 
@@ -981,6 +1155,9 @@ def replay(ctx, data):
         oracle_gate(ctx, "general", inp, qib.GeneralGate(mat_of(inp["mat"]), inp["nwires"]), inp["nwires"])
     elif kind == "layout":
         layout_case(ctx, mat_of(inp["mat"]), inp["nwires"], inp["layout"], inp["derive"])
+    elif kind == "composite":
+        composite_case(ctx, inp["spec"])
+        ctx.failing[:] = [f for f in ctx.failing if f["sig"] == sig] or ctx.failing
     elif kind == "gate-history":
         run_history(ctx, inp["case"], int(inp["hseed"]))
         ctx.failing[:] = [f for f in ctx.failing if f["sig"] == sig]
